@@ -89,6 +89,9 @@ type LedgerEvent struct {
 	Fd   int
 	Task string
 	Msg  string
+	// Was: what the framework last had under this number before somebody else
+	// got it ("eventfd", "stream", ...; "" if the framework never owned it).
+	Was string
 }
 
 type fdHistory struct {
@@ -97,6 +100,7 @@ type fdHistory struct {
 	lastKind  fileKind
 	closedBy  string
 	open      bool
+	fwKind    string // kind of the framework's last descriptor under this number
 }
 
 // Fault is one injected syscall failure.
@@ -228,6 +232,9 @@ func (k *Kernel) installAt(fd int, f *File, owner string) {
 	h.open = true
 	h.lastOwner = owner
 	h.lastKind = f.kind
+	if owner == OwnFramework {
+		h.fwKind = f.kind.String()
+	}
 	if h.gens > 1 {
 		k.Stats["fd-number-reused"]++
 	}
@@ -349,8 +356,12 @@ func (k *Kernel) frameworkFd(call string, fd int) (*fdEntry, Errno) {
 		return nil, unix.EBADF
 	}
 	if e.owner != OwnFramework {
-		k.Ledger = append(k.Ledger, LedgerEvent{Kind: "foreign-descriptor", Call: call, Fd: fd, Task: task,
-			Msg: fmt.Sprintf("%s on descriptor %d which belongs to %s (%s), not to the framework", call, fd, e.owner, e.file.kind)})
+		was := ""
+		if h := k.hist[fd]; h != nil {
+			was = h.fwKind
+		}
+		k.Ledger = append(k.Ledger, LedgerEvent{Kind: "foreign-descriptor", Call: call, Fd: fd, Task: task, Was: was,
+			Msg: fmt.Sprintf("%s on descriptor %d which belongs to %s (%s), not to the framework (the framework's last descriptor under this number: %s)", call, fd, e.owner, e.file.kind, was)})
 	}
 	return e, 0
 }
